@@ -252,7 +252,8 @@ def message_cases(eng, tier):
 
 def jobs(tier):
     out = [{"name": "messages", "kind": "messages"}]
-    structs = ["pair", "chain3", "pair_vcost"] + (["triangle", "ternary"] if tier == "thorough" else [])
+    # pair_isomid: two variables adjacent in the lexical order that share no constraint (order links vs constraint links)
+    structs = ["pair", "chain3", "pair_vcost", "pair_isomid"] + (["triangle", "ternary"] if tier == "thorough" else [])
     for s in structs:
         for g, algo in (("pseudotree", "dpop"), ("factor_graph", "maxsum"), ("constraints_hypergraph", "dsa"), ("ordered_graph", "syncbb")):
             out.append({"name": "compdef-%s-%s" % (g, s), "kind": "compdef", "graph": g, "algo": algo, "spec": spec(s, "min")})
